@@ -603,4 +603,126 @@ theorem allMarkedValid_length {σ : Type} {keys : List (Key σ)} {m : MSig σ} {
     have := (List.getElem?_eq_some_iff.mp hs).1
     omega
 
+/-! ## AddSignature with arbitrary indices never panics -/
+
+theorem getIndex_false_outside' (ba : BA) (i : Int) (h : i < 0 ∨ ba.size ≤ i) : ba.getIndex i = false := by
+  cases ba with
+  | none => rfl
+  | some b =>
+    simp only [BA.size] at h
+    simp only [BA.getIndex, CBA.outOfRange]
+    rcases h with h | h
+    · simp [h]
+    · have : decide (i ≥ b.size) = true := by simpa using h
+      simp [this]
+
+theorem countP_range_split (g : Nat → Bool) {a b : Nat} (h : a ≤ b) :
+    (List.range b).countP g = (List.range a).countP g + (List.range' a (b - a)).countP g := by
+  have : List.range b = List.range' 0 a ++ List.range' (0 + 1 * a) (b - a) := by
+    rw [List.range'_append, List.range_eq_range']; congr 1; omega
+  rw [this, List.countP_append, List.range_eq_range']; simp
+
+theorem marked_length_eq_countP (ba : BA) (n : Nat) :
+    (marked ba n).length = (List.range n).countP (fun p : Nat => ba.getIndex (p : Int)) := by
+  simp [marked, List.countP_eq_length_filter]
+
+theorem ntb_le_marked {ba : BA} {n : Nat} (hw : WellFormed ba n) (idx : Int) :
+    ba.numTrueBitsBefore idx ≤ (marked ba n).length := by
+  rw [marked_length_eq_countP]
+  simp only [BA.numTrueBitsBefore]
+  by_cases h : idx.toNat ≤ n
+  · rw [countP_range_split _ h]; omega
+  · rw [countP_range_split (fun p : Nat => ba.getIndex (p : Int)) (a := n) (b := idx.toNat) (by omega)]
+    have : (List.range' n (idx.toNat - n)).countP (fun p : Nat => ba.getIndex (p : Int)) = 0 := by
+      rw [List.countP_eq_zero]
+      intro p hp
+      have := List.mem_range'_1.mp hp
+      simp [hw.getIndex_ge (p := (p : Int)) (by omega)]
+    omega
+
+theorem ntb_lt_marked {ba : BA} {n i : Nat} (hi : i < n) (hg : ba.getIndex (i : Int) = true) :
+    ba.numTrueBitsBefore (i : Int) < (marked ba n).length := by
+  rw [marked_length_eq_countP, range_split hi]
+  simp only [BA.numTrueBitsBefore, Int.toNat_natCast, List.countP_append, List.countP_cons, hg, if_true]
+  omega
+
+theorem addSignatureE_any {σ : Type} {n : Nat} {m : MSig σ} (h : Built n m) (s : σ) (idx : Int) :
+    ∃ m', addSignatureE m s idx = .ok m' ∧ Built n m' := by
+  obtain ⟨hw, hlen⟩ := h
+  have hnt := ntb_le_marked hw idx
+  simp only [addSignatureE, numTrueBitsBeforeE_eq, getIndexE_eq, bind, Except.bind]
+  cases hg : m.ba.getIndex idx with
+  | true =>
+    have h0 : 0 ≤ idx := by
+      rcases Int.lt_or_le idx 0 with hneg | hpos
+      · have := getIndex_false_outside' m.ba idx (.inl hneg); simp [hg] at this
+      · exact hpos
+    have h1 : idx < (n : Int) := by
+      rcases Int.lt_or_le idx (n : Int) with hlt | hge
+      · exact hlt
+      · have := hw.getIndex_ge (p := idx) hge; simp [hg] at this
+    obtain ⟨i, rfl⟩ := Int.eq_ofNat_of_zero_le h0
+    have := ntb_lt_marked (n := n) (by omega) hg
+    simp only [if_true]
+    rw [if_pos (by omega)]
+    exact ⟨_, rfl, hw, by simpa using hlen⟩
+  | false =>
+    simp only [Bool.false_eq_true, if_false]
+    have hset : ∃ ba' r, m.ba.setIndexE idx true = .ok (ba', r) ∧ WellFormed ba' n ∧
+        (marked ba' n).length ≤ (marked m.ba n).length + 1 := by
+      cases hba : m.ba with
+      | none => exact ⟨none, false, rfl, by rw [hba] at hw; exact hw, by omega⟩
+      | some b =>
+        rw [hba] at hw hg
+        cases hout : b.outOfRange idx with
+        | true => exact ⟨some b, false, by simp [BA.setIndexE, hout], hw, by omega⟩
+        | false =>
+          obtain ⟨b', hs, he, hl, hget⟩ := setIndexE_true_spec b idx hout
+          obtain ⟨a0, a1, _⟩ := CBA.not_outOfRange hout
+          have hsz := hw.size
+          simp only [BA.size] at hsz
+          obtain ⟨i, rfl⟩ := Int.eq_ofNat_of_zero_le a0
+          have hi : i < n := by omega
+          refine ⟨some b', true, hs, ?_, ?_⟩
+          · obtain ⟨w1, w2, w3⟩ := hw
+            exact ⟨w1, by rw [he, w2], by rw [hl, w3]⟩
+          · rw [marked_length_eq_countP, marked_length_eq_countP, range_split hi]
+            simp only [List.countP_append, List.countP_cons]
+            have e1 : (List.range i).countP (fun p : Nat => BA.getIndex (some b') (p : Int))
+                = (List.range i).countP (fun p : Nat => BA.getIndex (some b) (p : Int)) := by
+              apply List.countP_congr
+              intro p hp
+              have := List.mem_range.mp hp
+              have : ¬ ((p : Int) = (i : Int)) := by omega
+              simp [hget, this]
+            have e2 : (List.range' (i + 1) (n - i - 1)).countP (fun p : Nat => BA.getIndex (some b') (p : Int))
+                = (List.range' (i + 1) (n - i - 1)).countP (fun p : Nat => BA.getIndex (some b) (p : Int)) := by
+              apply List.countP_congr
+              intro p hp
+              have := List.mem_range'_1.mp hp
+              have : ¬ ((p : Int) = (i : Int)) := by omega
+              simp [hget, this]
+            rw [e1, e2]
+            split <;> split <;> omega
+    obtain ⟨ba', r, hs, hw', hm'⟩ := hset
+    simp only [hs]
+    by_cases he : m.ba.numTrueBitsBefore idx = m.sigs.length
+    · rw [if_pos he]
+      exact ⟨_, rfl, hw', by simp only [List.length_append, List.length_cons, List.length_nil]; omega⟩
+    · rw [if_neg he, if_pos (by omega)]
+      refine ⟨_, rfl, hw', ?_⟩
+      simp only [List.length_insertIdx_of_le_length (show m.ba.numTrueBitsBefore idx ≤ m.sigs.length by omega)]
+      omega
+
+theorem addAllIntE_ok {σ : Type} {n : Nat} (adds : List (Int × σ)) {m : MSig σ} (h : Built n m) :
+    ∃ m', addAllIntE m adds = .ok m' ∧ Built n m' := by
+  induction adds generalizing m with
+  | nil => exact ⟨m, rfl, h⟩
+  | cons a rest ih =>
+    obtain ⟨i, s⟩ := a
+    obtain ⟨m1, h1, b1⟩ := addSignatureE_any h s i
+    obtain ⟨m2, h2, b2⟩ := ih b1
+    exact ⟨m2, by simp [addAllIntE, h1, h2, bind, Except.bind], b2⟩
+
+
 end GnoVerif.C44
